@@ -799,6 +799,11 @@ class Interp:
                     except AnalysisBroken:
                         if real:
                             raise
+            if len(real) == 1 and _re.match(r'^(const )?std::vector<', dqt(n) or qt(n)) and 'vector' not in (qt(real[0]) + dqt(real[0])):
+                cnt = self.expr(real[0], env)
+                if isinstance(cnt, IV) and cnt.concrete() and 0 <= cnt.lo <= 1 << 20:
+                    return Vec([const(8, True, 0) for _ in range(cnt.lo)])      # vector<T>(n): n value-initialised elements
+                raise AnalysisBroken('vector of non-concrete size at %s' % pos(n))
             if len(real) == 1:
                 return self.expr(real[0], env)
             if len(real) == 2 and _is_string_type(dqt(n)):
@@ -996,7 +1001,8 @@ class Interp:
                         cleared = [i for i in range(w) if (inv >> i) & 1]
                         vals_ = [kb(i) for i in cleared]
                         if cleared and all(v_ is not None for v_ in vals_):
-                            lowv = sum(v_ << i for i, v_ in zip(cleared, vals_))
+                            # value of the cleared bits of x (the sign bit of a signed operand weighs -2^(w-1))
+                            lowv = sum((-(v_ << i) if (signed and i == w - 1) else (v_ << i)) for i, v_ in zip(cleared, vals_))
                             aff = (x_.aff[0], x_.aff[1] - lowv)
                             lo, hi = x_.lo - lowv, x_.hi - lowv
             return IV(w, signed, lo, hi, bits, None, aff)
@@ -1248,6 +1254,8 @@ class Interp:
                 if name in ('push_back', 'emplace_back'):
                     o.items.append(self.consume(self.expr(args[0], env), env))
                     return None
+                if name == 'data':
+                    return o
                 if name == 'at':
                     iv = self.expr(args[0], env)
                     if not (isinstance(iv, IV) and iv.concrete()):
